@@ -14,6 +14,17 @@ func (ex *Exec) lockCheck(p PtrV, write bool, pos token.Pos) {
 	}
 	// captured variables declared `atomic`: every plain load/store is a violation of the discipline
 	for _, name := range ex.top.contract.Atomic {
+		if strings.Contains(name, ".") && p.Kind == pObj && len(p.Path) > 0 {
+			// Type.field: a heap field that may only be accessed through sync/atomic
+			if strings.HasSuffix(typeName(p.Root)+pathString(p.Root, p.Path), name) {
+				what := "read"
+				if write {
+					what = "write"
+				}
+				ex.vc.Oblige("lock", "non-atomic "+what+" of "+name, ex.st.pc, TFalse, ex.posString(pos))
+			}
+			continue
+		}
 		for i, fv := range ex.top.fn.FreeVars {
 			if fv.Name() != name {
 				continue
